@@ -12,6 +12,7 @@ import GormModel.Lemmas.SharedWrites
 import GormModel.Lemmas.WhereSwap
 import GormModel.Lemmas.SharedCell
 import GormModel.Lemmas.SharedConfig
+import GormModel.Lemmas.StmtWait
 namespace Gorm
 open Gorm.SchemaCache
 
@@ -219,5 +220,228 @@ theorem C07_error_reparse_example :
 
 /-- non-vacuity: a schedule on the cyclic graph in which both goroutines finish, returning the single winners -/
 example : (scReach scCfgAB [[0, 1], [1, 0]] (List.replicate 40 0 ++ List.replicate 40 1)).rets.length = 5 := by decide +kernel
+
+/-! ### operations that FAIL concurrently (round 3): waiters on a failed `PrepareContext`, waiters on a failed schema parse
+
+  C14's LTS of the statement cache (`Model.StmtCache`: lookup / publish / wait / prepare fails / delete / close channel) is
+  imported, not duplicated.  `Model.StmtWait` puts the one thing C14's `.waiting` step hard-wires — the test of
+  `stmt.prepareErr` after `<-stmt.prepared` — under the regenerated `Gen.waitSites`, separately for the entry found under
+  `RLock` (fast path) and under `Lock` (double check). -/
+
+open Gorm.SW Gorm.SC in
+/-- WAIT SITES (regenerated from prepare_stmt.go on every run).  `prepare` waits on `<-stmt.prepared` at exactly two places,
+    the first after the `RLock` lookup, the second after the `Lock` lookup; each is followed by
+    `if stmt.prepareErr != nil { return Stmt{}, stmt.prepareErr }` for the very variable it waited on and returns `*stmt`
+    otherwise; the only other waits on `prepared` are the closer goroutines of `Close`/`Reset`, which test `s.Stmt != nil`
+    before they close; and all six callers of `prepare` touch the statement only under `if err == nil`.  Hence the
+    configuration of the current tree is the checked one. -/
+theorem C07_prepare_wait_sites_checked :
+    ((Gen.waitSites.filter fun w => w.chan == "prepared" && !w.inGo).map fun w => (w.fn, w.branch, siteChecked w)) =
+      [("PreparedStmtDB.prepare", "RLock", true), ("PreparedStmtDB.prepare", "Lock", true)] ∧
+    ((Gen.waitSites.filter fun w => w.chan == "prepared" && w.inGo).all fun w =>
+      w.after == "if-nil-guard" && w.errField == "Stmt" && w.errOf == w.recv) = true ∧
+    (Gen.prepareCallSites.map (·.fn) =
+      ["PreparedStmtDB.ExecContext", "PreparedStmtDB.QueryContext", "PreparedStmtDB.QueryRowContext",
+       "PreparedStmtTX.ExecContext", "PreparedStmtTX.QueryContext", "PreparedStmtTX.QueryRowContext"] ∧
+     (Gen.prepareCallSites.all fun c => c.guard == "if-err-nil") = true) ∧
+    genWCfg = allChecked := by
+  decide
+
+/-- WAIT SITES of the schema cache (regenerated from schema/schema.go): `ParseWithSpecialTableName` waits on
+    `<-s.initialized` at exactly three places (first lookup, second lookup, `LoadOrStore` loser) and each is followed by
+    `return s, s.err` — the schema it WAITED for (not its own private copy) together with THAT schema's error. -/
+theorem C07_schema_wait_sites_return_waited_schema_and_error :
+    (Gen.waitSites.filter fun w => w.chan == "initialized").map (fun w => (w.file, w.fn, w.inGo)) =
+      [("schema/schema.go", "ParseWithSpecialTableName", false), ("schema/schema.go", "ParseWithSpecialTableName", false),
+       ("schema/schema.go", "ParseWithSpecialTableName", false)] ∧
+    ((Gen.waitSites.filter fun w => w.chan == "initialized").all fun w =>
+      w.after == "return-with-err" && w.errField == "err" && w.errOf == w.recv && w.retVal == w.recv) = true := by
+  decide
+
+/-- COMPLETION SITES (regenerated): the builder of a cache entry tells its waiters that it is done on EVERY return path — the only
+    `close(cacheStmt.prepared)` and the only `close(schema.initialized)` are unconditional `defer` statements — and the
+    preparation error is published (`cacheStmt.prepareErr = err`, under `if err != nil`) in the function whose deferred close
+    releases the waiters.  Without the first, waiters on a failed build block forever; without the second they see "no error". -/
+theorem C07_completion_published_on_every_path :
+    (Gen.completionSites.filter fun d => d.kind == "close").map (fun d => (d.fn, d.target, d.deferred, d.guard)) =
+      [("PreparedStmtDB.prepare", "cacheStmt.prepared", true, ""), ("ParseWithSpecialTableName", "schema.initialized", true, "")] ∧
+    (Gen.completionSites.filter fun d => d.kind == "seterr").map (fun d => (d.fn, d.target, d.guard)) =
+      [("PreparedStmtDB.prepare", "cacheStmt.prepareErr = err", "err!=nil")] := by
+  decide
+
+open Gorm.SW Gorm.SC in
+/-- LOCAL STEP, both lookup branches.  A goroutine whose wait on entry `e` is over (`prepared` closed) and whose preparer
+    FAILED: if the wait site it went through tests `prepareErr`, its next step returns the preparation error; if not, it
+    returns `*stmt, nil` with a nil `*sql.Stmt` and the caller's `stmt.ExecContext` / `QueryContext` dereferences it. -/
+theorem C07_failed_wait_step (w : WSt) (t e v : Nat) (q : Text) (tx : Bool) (a : Ans) (ht : t < w.base.nT)
+    (hop : (w.base.threads t).op = .use v q tx) (hpc : (w.base.threads t).pc = .waiting e)
+    (hp : (w.base.entries e).prepared = true) (herr : (w.base.entries e).err = true) :
+    (checked w.wcfg (w.via t) = true → wact w (.thr t a) = some { w with base := finish w.base t .prepErr }) ∧
+    (checked w.wcfg (w.via t) = false → wact w (.thr t a) = some { w with base := finish w.base t .nilStmt }) := by
+  constructor <;> intro hc <;> simp [wact, ht, wtstep, hop, hpc, unchecked, hp, herr, hc, tstep, stepUse]
+
+open Gorm.SW Gorm.SC in
+/-- FAILED PREPARE, ALL INTERLEAVINGS, BOTH BRANCHES.  With both wait sites checked: after ANY schedule of any program (any
+    number of goroutines, texts, `PreparedStmtDB` structs, transactions, Reset/Close), for every entry whose
+    `PrepareContext` failed, every operation that resolved to it — found under `RLock` or in the double check under `Lock`,
+    or published it — and has returned, returned the PREPARATION ERROR: none returned rows, none left with a nil statement.
+    (Refinement `wrun_base` onto C14's LTS + C14's failure-broadcast invariant `FB`.) -/
+theorem C07_failed_prepare_every_waiter_gets_error (ops : List Op) (nV : Nat) (cfg : SC.Cfg) (sched : List Act)
+    (hw : wfOps ops nV) (e : Nat) :
+    let w := wrun (winit ops nV cfg allChecked) sched
+    e < w.base.nE → (w.base.entries e).err = true →
+      ∀ t r, (w.base.threads t).ent = some e → result w.base t = some r →
+        r = .prepErr ∧ r ≠ .rows ∧ r ≠ .nilStmt := by
+  intro w he herr t r hent hres
+  have hb : w.base = run (init ops nV cfg) sched := wrun_base (winit ops nV cfg allChecked) rfl sched
+  rw [hb] at he herr hent hres
+  have := SW.failure_broadcast ops nV cfg sched hw e he herr t r hent hres
+  subst this
+  exact ⟨rfl, by decide, by decide⟩
+
+open Gorm.SW Gorm.SC in
+/-- non-vacuity: the double-check interleaving (G0 and G1 both miss under RLock, G0 publishes, G1 finds the entry under Lock,
+    G0's prepare fails) and the fast-path interleaving (G1 arrives after G0 published); the waiter went through the
+    respective branch and returns the preparation error -/
+example :
+    (let w := wrun (winit [.use 0 0 false, .use 0 0 false] 1 {} allChecked)
+       [.thr 0 .ok, .thr 1 .ok, .thr 0 .ok, .thr 1 .ok, .thr 0 .err, .thr 0 .ok, .thr 0 .ok, .thr 1 .ok]
+     w.via 1 = .double ∧ (w.base.entries 0).err = true ∧ (w.base.threads 1).ent = some 0 ∧
+     result w.base 0 = some .prepErr ∧ result w.base 1 = some .prepErr) ∧
+    (let w := wrun (winit [.use 0 0 false, .use 0 0 false] 1 {} allChecked)
+       [.thr 0 .ok, .thr 0 .ok, .thr 1 .ok, .thr 0 .err, .thr 0 .ok, .thr 0 .ok, .thr 1 .ok]
+     w.via 1 = .fast ∧ (w.base.threads 1).ent = some 0 ∧ result w.base 1 = some .prepErr) := by decide
+
+open Gorm.SW Gorm.SC in
+/-- F31 at model level (kernel-checked): goroutine 1 receives ONLY `ok` answers from its driver — alone its statement is
+    prepared and executed — but it found goroutine 0's in-progress entry, goroutine 0's `PrepareContext` failed (its context
+    was cancelled), and goroutine 1 returns THAT preparation error.  The full statement "each returns the same result as when it
+    runs alone" fails on this schedule. -/
+theorem C07_prepare_error_broadcast_counterexample :
+    let sched : List Act := [.thr 0 .ok, .thr 0 .ok, .thr 1 .ok, .thr 0 .err, .thr 0 .ok, .thr 0 .ok, .thr 1 .ok]
+    let w := wrun (winit [.use 0 0 false, .use 0 0 false] 1 {} allChecked) sched
+    (sched.all fun a => match a with | .thr 1 x => x == .ok | _ => true) = true ∧
+    result w.base 1 = some .prepErr ∧ (w.base.threads 1).ent = some 0 ∧ (w.base.entries 0).owner = 0 ∧
+    result (wrun (winit [.use 0 0 false] 1 {} allChecked) (List.replicate 8 (.thr 0 .ok))).base 0 = some .rows := by
+  decide
+
+open Gorm.SW Gorm.SC in
+/-- OUTSIDE THE F31 PATTERN (extra hypothesis = its negation: the operation is the preparer of the entry it resolved to, or that
+    entry's preparation did not fail): after ANY schedule an operation reports a preparation error only if it is the goroutine
+    whose OWN `PrepareContext` failed — exactly what it reports when it runs alone with that driver answer. -/
+theorem C07_prepare_error_own_partial (ops : List Op) (nV : Nat) (cfg : SC.Cfg) (sched : List Act) (t e : Nat) (r : Res) :
+    let w := wrun (winit ops nV cfg allChecked) sched
+    (w.base.threads t).ent = some e → result w.base t = some r →
+    ((w.base.entries e).owner = t ∨ (w.base.entries e).err = false) →
+    r = .prepErr → (w.base.entries e).owner = t ∧ (w.base.entries e).err = true := by
+  intro w hent hres hpat hr
+  have hb : w.base = run (init ops nV cfg) sched := wrun_base (winit ops nV cfg allChecked) rfl sched
+  rw [hb] at hent hres hpat ⊢
+  have hT := (inv1_reachable ops nV cfg sched).1.1 t
+  unfold result at hres
+  split at hres
+  next r' hpc =>
+    have hrr : r' = r := by simpa using hres
+    have herr : ((run (init ops nV cfg) sched).entries e).err = true :=
+      ((hT.2.2.2.2.2.2.2.2 r' hpc e hent).2.2).mpr (by rw [hrr]; exact hr)
+    rcases hpat with h | h
+    · exact ⟨h, herr⟩
+    · rw [h] at herr; cases herr
+  next => cases hres
+
+open Gorm.SC in
+/-- F32 at model level (kernel-checked): goroutines 0 and 1 both hold their copy of the cached statement; the driver answers
+    goroutine 0's execution with `driver.ErrBadConn`; 0 evicts the entry and its `go stmt.Close()` runs; goroutine 1 then
+    executes a CLOSED statement and returns "sql: statement is closed" — alone, with the same broken connection, it returns
+    `driver.ErrBadConn` like goroutine 0. -/
+theorem C07_badconn_eviction_closes_held_counterexample :
+    let cfg : SC.Cfg := { guardFail := true, guardEvict := true }
+    let s := SC.run (SC.init [.use 0 0 false, .use 0 0 false] 1 cfg)
+      (List.replicate 5 (.thr 0 .ok) ++ List.replicate 2 (.thr 1 .ok) ++ [.thr 0 .ok, .thr 0 .bad, .thr 0 .ok, .closeH 0, .thr 1 .ok])
+    SC.result s 0 = some .badConn ∧ SC.result s 1 = some .stmtClosed ∧
+    SC.result (SC.run (SC.init [.use 0 0 false] 1 cfg) (List.replicate 6 (.thr 0 .ok) ++ [.thr 0 .bad, .thr 0 .ok])) 0 = some .badConn := by
+  decide
+
+open Gorm.SW Gorm.SC in
+/-- OUTSIDE THE F32 PATTERN (extra hypothesis = its negation: no operation has returned `ErrBadConn`, and no Reset/Close ran —
+    the F14a/F14c patterns of C14): in every state reachable by any schedule a goroutine that holds a statement of the pool
+    executes it, whatever the driver then answers — it never sees "sql: statement is closed".  (C14's invariants `Inv3`.) -/
+theorem C07_held_statement_executes_partial (ops : List Op) (nV : Nat) (cfg : SC.Cfg) (sched : List Act) (hw : wfOps ops nV) :
+    let s := (wrun (winit ops nV cfg allChecked) sched).base
+    ∀ t v q e h a, t < s.nT → (s.threads t).op = .use v q false → (s.threads t).pc = .ready e h →
+      ¬ rcDone s → ¬ badDone s → act s (.thr t a) = some (setPc s t (.using e h)) := by
+  intro s
+  have hb : s = run (init ops nV cfg) sched := wrun_base (winit ops nV cfg allChecked) rfl sched
+  rw [hb]
+  obtain ⟨h2, h3⟩ := inv3_reachable ops nV cfg hw sched
+  obtain ⟨_, hRC, hBC, hCL, hUT⟩ := h3
+  intro t v q e h a ht hop hpc hnr hnb
+  have h7 := (h2.1.1.1 t).2.2.2.2.2.2.1 e h (Or.inl hpc)
+  have htx : ((run (init ops nV cfg) sched).entries e).tx = false := (hUT t e h7.2.2.2.2).2 v q hop
+  have hh := h2.2.2.2.1.2 e h h7.1 h7.2.2.2.1
+  have hh1 := h2.2.2.2.1.1 h hh.1
+  rw [hh.2] at hh1
+  have hhtx : ((run (init ops nV cfg) sched).handles h).tx = false := by rw [← hh1.2.2.1]; exact htx
+  have hcl : ((run (init ops nV cfg) sched).handles h).closed = false := by
+    cases hc : ((run (init ops nV cfg) sched).handles h).closed with
+    | false => rfl
+    | true =>
+      rcases hCL h hh.1 hhtx hc with c | c
+      · exact absurd (hBC h hh.1 c) hnb
+      · rw [hh.2] at c; exact absurd (hRC e h7.1 c) hnr
+  simp [act, ht, tstep, hop, hpc, stepUse, hcl]
+
+/-- the double-check schedule: both goroutines miss under RLock, 0 publishes, 1 finds the entry under Lock, 0's prepare fails -/
+def swSchedDouble : List SC.Act :=
+  [.thr 0 .ok, .thr 1 .ok, .thr 0 .ok, .thr 1 .ok, .thr 0 .err, .thr 0 .ok, .thr 0 .ok, .thr 1 .ok]
+
+/-- the fast-path schedule: 0 publishes, 1 finds the entry under RLock, 0's prepare fails -/
+def swSchedFast : List SC.Act :=
+  [.thr 0 .ok, .thr 0 .ok, .thr 1 .ok, .thr 0 .err, .thr 0 .ok, .thr 0 .ok, .thr 1 .ok]
+
+open Gorm.SW Gorm.SC in
+/-- WHAT EACH TEST IS NEEDED FOR (kernel-checked schedules): without the test after the double-check wait, the goroutine that
+    found the failing entry under `Lock` leaves with a nil statement while the preparer and a later fast-path goroutine get
+    the error — every serial caller still sees the driver's error; symmetrically for the fast path. -/
+theorem C07_unchecked_wait_counterexample :
+    (∀ b : Bool, let w := wrun (winit [.use 0 0 false, .use 0 0 false] 1 {} { errFast := b, errDouble := false }) swSchedDouble
+       result w.base 0 = some .prepErr ∧ result w.base 1 = some .nilStmt) ∧
+    (∀ b : Bool, let w := wrun (winit [.use 0 0 false, .use 0 0 false] 1 {} { errFast := false, errDouble := b }) swSchedFast
+       result w.base 0 = some .prepErr ∧ result w.base 1 = some .nilStmt) ∧
+    (let w := wrun (winit [.use 0 0 false] 1 {} { errFast := false, errDouble := false }) (List.replicate 6 (.thr 0 .err));
+     result w.base 0 = some .prepErr) := by
+  refine ⟨?_, ?_, ?_⟩
+  · intro b; cases b <;> decide
+  · intro b; cases b <;> decide
+  · decide
+
+open Gorm.SW Gorm.SC in
+/-- WHAT HOLDS FOR THE CURRENT SOURCE TREE, decided by the regenerated wait-site facts (`genWCfg`): either both wait sites
+    test `prepareErr` and every waiter on a failed prepare returns the error under every schedule, or one does not and on
+    this very configuration a two-goroutine schedule ends with a nil-statement dereference. -/
+theorem C07_failed_prepare_current_tree :
+    (genWCfg = allChecked ∧
+      ∀ (ops : List Op) (nV : Nat) (cfg : SC.Cfg) (sched : List Act), wfOps ops nV → ∀ e,
+        e < (wrun (winit ops nV cfg genWCfg) sched).base.nE → ((wrun (winit ops nV cfg genWCfg) sched).base.entries e).err = true →
+        ∀ t r, ((wrun (winit ops nV cfg genWCfg) sched).base.threads t).ent = some e →
+          result (wrun (winit ops nV cfg genWCfg) sched).base t = some r → r = .prepErr)
+    ∨ ((genWCfg.errFast = false ∨ genWCfg.errDouble = false) ∧
+       ∃ (sched : List Act), result (wrun (winit [.use 0 0 false, .use 0 0 false] 1 {} genWCfg) sched).base 1 = some .nilStmt) := by
+  cases hcfg : genWCfg with
+  | mk a b =>
+    cases a with
+    | false =>
+      right
+      exact ⟨Or.inl rfl, swSchedFast, (C07_unchecked_wait_counterexample.2.1 b).2⟩
+    | true =>
+      cases b with
+      | false =>
+        right
+        exact ⟨Or.inr rfl, swSchedDouble, (C07_unchecked_wait_counterexample.1 true).2⟩
+      | true =>
+        left
+        refine ⟨rfl, fun ops nV cfg sched hw e he herr t r hent hres => ?_⟩
+        exact (C07_failed_prepare_every_waiter_gets_error ops nV cfg sched hw e he herr t r hent hres).1
+
 
 end Gorm
